@@ -234,7 +234,7 @@ func EF1(x int) int {
 
 func EF2(x int) int {
 	o := outerT{innerT{x, 2}, 3}
-	return o.innerT /* promoted */ .F + o.innerT.
+	return o.innerT. /* promoted */ F + o.innerT.
 		G
 }
 
@@ -258,3 +258,149 @@ func FW1(x string) string {
 func DM20(a, b, c bool) bool { return !(a && b) && !(b || c) }
 func DM21(x, y int) bool     { return -1 < x && !(x < y || y > 3) }
 func BC20(a, b bool) bool    { return (a == true) != (b == false) }
+
+// ---- S1001 / S1011 / S1018: loops that copy or append ----
+
+func LC1(src []int) int {
+	dst := make([]int, len(src))
+	for i, x := range src {
+		dst[i] = x
+	}
+	s := 0
+	for _, v := range dst {
+		s = s*10 + v
+	}
+	return s
+}
+
+func LC2(src []int) int {
+	dst := make([]int, len(src))
+	for i := range src {
+		dst[i] = src[i]
+	}
+	return len(dst)*100 + sum(dst)
+}
+
+func LC3(src []int) int {
+	var dst [2]int
+	if len(src) < 2 {
+		return -1
+	}
+	for i := 0; i < len(src[:2]); i++ {
+		dst[i] = src[i]
+	}
+	return dst[0]*10 + dst[1]
+}
+
+func sum(xs []int) int {
+	s := 0
+	for _, x := range xs {
+		s += x
+	}
+	return s
+}
+
+func LA1(a, b []int) int {
+	for _, x := range b {
+		a = append(a, x)
+	}
+	return len(a)*100 + sum(a)
+}
+
+func LA2(b []int) int {
+	var a []int
+	for i := range b {
+		a = append(a, b[i])
+	}
+	return len(a)*100 + sum(a)
+}
+
+func SL1M(bs []int, n int) int {
+	if n < 0 || n > len(bs) {
+		return -1
+	}
+	for i := 0; i < n; i++ {
+		bs[i] = bs[len(bs)-n+i]
+	}
+	return sum(bs)
+}
+
+// ---- S1021 / QF1007: declarations merged with assignments ----
+
+func MD1(a int) int {
+	var x int
+	x = a * 2
+	return x + 1
+}
+
+func MD2(a int, c bool) int {
+	x := a
+	if c {
+		x = a + 1
+	}
+	return x
+}
+
+func MD3(a int) int {
+	var s string
+	s = "v"
+	return len(s) + a
+}
+
+// ---- S1033 / S1036: guarded map operations ----
+
+func MG1M(k int) int {
+	m := map[int]int{1: 1, 2: 2}
+	if _, ok := m[k]; ok {
+		delete(m, k)
+	}
+	return len(m)
+}
+
+func MG2(k int) int {
+	m := map[int][]int{1: {1}}
+	if _, ok := m[k]; ok {
+		m[k] = append(m[k], 5)
+	} else {
+		m[k] = []int{5}
+	}
+	return len(m)*10 + len(m[k])
+}
+
+func MG3(k int) int {
+	m := map[int]int{1: 7}
+	if _, ok := m[k]; ok {
+		m[k] += 2
+	} else {
+		m[k] = 2
+	}
+	return m[k]
+}
+
+// ---- S1008: returning a boolean ----
+
+func RB1M(a, b int) bool {
+	if a < b {
+		return true
+	}
+	return false
+}
+
+func RB2M(a, b int) bool {
+	if a == b || side(a) {
+		return false
+	}
+	return true
+}
+
+func RB3M(s string) bool {
+	if !strings.HasPrefix(s, "a") {
+		return false
+	}
+	return true
+}
+
+// ---- S1010: redundant slice bound ----
+
+func SB1(s []int) int     { return sum(s[:len(s)]) }
+func SB2(s string) string { return s[1:len(s)] + "." }
